@@ -331,6 +331,7 @@ fn probe_spec(id: u64, w: &FaultWorld, gate: Option<String>) -> ReqSpec {
         resp_chunk: 0,
         unsized_body: id % 2 == 1,
         http10: false,
+        root_path: 0,
     }
 }
 
@@ -459,19 +460,63 @@ pub fn run(args: &Args) -> Report {
         let w = &wr[i as usize];
         let paused = matches!(w.net, Net::Duplex(_));
         let (problems, inconclusive) = if paused {
-            let rt = tokio::runtime::Builder::new_current_thread().enable_all().start_paused(true).build().unwrap();
-            // the virtual day passes only if the world can make no progress at all
-            match rt.block_on(async { tokio::time::timeout(Duration::from_secs(86_400), run_world(w, true)).await }) {
+            // The world runs on its own OS thread. A virtual-time world needs milliseconds of real time; if its single
+            // runtime thread is still busy after two real minutes, some task never yields (no virtual timeout can fire
+            // then): the server - and everything else on that thread - is wedged. That is a verdict, not a watchdog:
+            // the thread is left behind and the process carries on.
+            let w2 = w.clone();
+            let (tx, rx) = std::sync::mpsc::channel();
+            std::thread::Builder::new()
+                .name("fault-world".into())
+                .spawn(move || {
+                    let rt = tokio::runtime::Builder::new_current_thread().enable_all().start_paused(true).build().unwrap();
+                    // the virtual day passes only if the world can make no progress at all
+                    let out = match rt.block_on(async { tokio::time::timeout(Duration::from_secs(86_400), run_world(&w2, true)).await }) {
+                        Ok(x) => x,
+                        Err(_) => (vec![("world-makes-no-progress".to_string(), "the world neither finished nor failed: nothing is runnable and no client-side timeout is pending".to_string())], vec![]),
+                    };
+                    let _ = tx.send(out);
+                })
+                .unwrap();
+            match rx.recv_timeout(Duration::from_secs(120)) {
                 Ok(x) => x,
-                Err(_) => (vec![("world-makes-no-progress".to_string(), "the world neither finished nor failed: nothing is runnable and no client-side timeout is pending".to_string())], vec![]),
+                Err(std::sync::mpsc::RecvTimeoutError::Timeout) => (
+                    vec![(
+                        format!("server-thread-wedged-after-fault:{}", w.faults.iter().map(|f| format!("{f:?}")).collect::<Vec<_>>().join("+")),
+                        "the runtime thread that serves the world has been busy for 120 s of real time without reaching any await point that yields: a per-connection task spins (the world normally completes in milliseconds and every wait in it is bounded in virtual time)".to_string(),
+                    )],
+                    vec![],
+                ),
+                Err(std::sync::mpsc::RecvTimeoutError::Disconnected) => (vec![("world-thread-panicked".to_string(), "the thread running the world panicked".to_string())], vec![]),
             }
         } else {
-            let rt = tokio::runtime::Builder::new_multi_thread().worker_threads(2).enable_all().build().unwrap();
-            let out = rt.block_on(async { tokio::time::timeout(Duration::from_secs(120), run_world(w, false)).await });
-            rt.shutdown_timeout(Duration::from_millis(100));
-            match out {
+            // real sockets, real time, two worker threads; again on an OS thread of its own. The world's own 120 s
+            // watchdog (inconclusive) needs one free worker to fire; if nothing at all comes back after 300 s, every
+            // worker is spinning and no timer can fire any more.
+            let w2 = w.clone();
+            let (tx, rx) = std::sync::mpsc::channel();
+            std::thread::Builder::new()
+                .name("fault-world-rt".into())
+                .spawn(move || {
+                    let rt = tokio::runtime::Builder::new_multi_thread().worker_threads(2).enable_all().build().unwrap();
+                    let out = rt.block_on(async { tokio::time::timeout(Duration::from_secs(120), run_world(&w2, false)).await });
+                    rt.shutdown_timeout(Duration::from_millis(100));
+                    let _ = tx.send(match out {
+                        Ok(x) => x,
+                        Err(_) => (vec![], vec![format!("wall-clock watchdog fired in world {}", w2.to_json())]),
+                    });
+                })
+                .unwrap();
+            match rx.recv_timeout(Duration::from_secs(300)) {
                 Ok(x) => x,
-                Err(_) => (vec![], vec![format!("wall-clock watchdog fired in world {}", w.to_json())]),
+                Err(std::sync::mpsc::RecvTimeoutError::Timeout) => (
+                    vec![(
+                        format!("server-threads-wedged-after-fault:{}", w.faults.iter().map(|f| format!("{f:?}")).collect::<Vec<_>>().join("+")),
+                        "nothing came back from the world within 300 s although its own 120 s timeout only needs one runtime worker that reaches an await point: every worker thread is spinning in a per-connection task".to_string(),
+                    )],
+                    vec![],
+                ),
+                Err(std::sync::mpsc::RecvTimeoutError::Disconnected) => (vec![], vec!["the thread running a real-socket world panicked".to_string()]),
             }
         };
         let p = r.prop("C09", RULE);
